@@ -109,6 +109,12 @@ def execute_plan(prop, plan):
 
     run = prop.execute(plan) if hasattr(prop, "execute") else runner.execute(plan)
     viols = prop.check(run)
+    if not getattr(prop, "handles_session_failure", False):
+        from .oracle import V
+
+        for r in getattr(run, "session_failures", []):
+            if r["op"].get("op") == "session":
+                viols.append(V("%s.valid-session-refused" % prop.id, "constructing session %d (%s) raised %s: %s" % (r["s"], run.sess_cfg[r["s"]].get("version"), r["exc"]["exc"], r["exc"]["msg"][:100]), exc=r["exc"]["exc"]))
     res = {
         "violations": [v.as_dict() for v in viols],
         "trace": run.sim.trace_hash() if hasattr(run, "sim") else run.trace_hash(),
